@@ -911,6 +911,15 @@ func (dc *DirectConnection) restoreAckedSession() {
 	dc.sessionVariables = dc.ackedVariables.Clone()
 }
 
+// backendVariableName returns the name a session variable goes by on this backend:
+// tx_read_only is called transaction_read_only from MySQL 8.0.3 on.
+func (dc *DirectConnection) backendVariableName(name string) string {
+	if name == mysql.TxReadOnly && dc.versionCompare != nil && !dc.versionCompare.LessThanMySQLVersion803 {
+		return mysql.TransactionReadOnly
+	}
+	return name
+}
+
 // WriteSetStatement execute sql
 func (dc *DirectConnection) WriteSetStatement() error {
 	var setVariableSQL bytes.Buffer
@@ -922,21 +931,22 @@ func (dc *DirectConnection) WriteSetStatement() error {
 	}
 	appendSetCharset(&setVariableSQL, dc.charset, collation)
 
+	// names this statement assigns, as the backend sees them
+	assigned := make(map[string]bool)
 	for _, v := range dc.sessionVariables.GetAll() {
-		if v.Name() == mysql.TxReadOnly && dc.versionCompare != nil && !dc.versionCompare.LessThanMySQLVersion803 {
-			appendSetVariable(&setVariableSQL, mysql.TransactionReadOnly, v.Get())
-			continue
-		}
-		appendSetVariable(&setVariableSQL, v.Name(), v.Get())
+		name := dc.backendVariableName(v.Name())
+		assigned[name] = true
+		appendSetVariable(&setVariableSQL, name, v.Get())
 	}
 
 	for _, v := range dc.sessionVariables.GetUnusedAndClear() {
-		// reset the variable under the name it was set with above
-		if v.Name() == mysql.TxReadOnly && dc.versionCompare != nil && !dc.versionCompare.LessThanMySQLVersion803 {
-			appendSetVariableToDefault(&setVariableSQL, mysql.TransactionReadOnly)
+		// reset the variable under the name it was set with; a variable the statement
+		// assigns under its other spelling must not be reset after the assignment
+		name := dc.backendVariableName(v.Name())
+		if assigned[name] {
 			continue
 		}
-		appendSetVariableToDefault(&setVariableSQL, v.Name())
+		appendSetVariableToDefault(&setVariableSQL, name)
 	}
 
 	setSQL := setVariableSQL.String()
